@@ -299,3 +299,32 @@ func verifH_C05_deepobject_mixed() {
 	verifAssert(ok && verifSame(m["zz"], wantZ), "C05 deepObject mixed: the undeclared member is typed by the additionalProperties schema")
 	verifReach("end")
 }
+
+//verif:harness id=C05 tier=quick,thorough witness=end bounds="deepObject parameters whose names are related (page / pageInfo / pag / Page / page.x): a request carrying members of one of them only (leaf = one symbolic digit): that parameter decodes to its member, every other one is absent (an optional one passes ValidateParameter, a required one is ErrInvalidRequired)"
+func verifH_C05_deepobject_related_names() {
+	names := []string{"page", "pageInfo", "pag", "Page", "page.x"}
+	sent := names[verifChoose("sent", len(names))]
+	asked := names[verifChoose("asked", len(names))]
+	d := verifNondetByteIn("d", "0123456789")
+	q := url.Values{sent + "[a]": []string{string([]byte{d})}}
+	explode := true
+	obj := &openapi3.Schema{Type: &openapi3.Types{"object"}, Required: []string{"a"}, Properties: openapi3.Schemas{"a": verifPrimSchema("integer")}}
+	param := &openapi3.Parameter{Name: asked, In: "query", Style: "deepObject", Explode: &explode, Required: verifChoose("required", 2) == 1, Schema: &openapi3.SchemaRef{Value: obj}}
+	input := &RequestValidationInput{QueryParams: q, Request: &http.Request{Method: "GET", Header: http.Header{}, URL: &url.URL{Path: "/"}}, PathParams: map[string]string{}, Options: &Options{}}
+	got, found, err := decodeStyledParameter(param, input)
+	verr := ValidateParameter(context.Background(), input, param)
+	if asked == sent {
+		m, ok := got.(map[string]any)
+		verifAssert(err == nil && found && ok && len(m) == 1 && verifSame(m["a"], int64(d-'0')), "C05 related names: the parameter that was sent decodes to its member")
+		verifAssert(verr == nil, "C05 related names: the parameter that was sent validates")
+	} else {
+		verifAssert(err == nil && !found && isNilValue(got), "C05 related names: a parameter whose name merely resembles the one that was sent is absent")
+		if param.Required {
+			re, ok := verr.(*RequestError)
+			verifAssert(ok && re.Err == ErrInvalidRequired, "C05 related names: an absent required parameter is ErrInvalidRequired")
+		} else {
+			verifAssert(verr == nil, "C05 related names: an absent optional parameter is accepted")
+		}
+	}
+	verifReach("end")
+}
